@@ -8,6 +8,7 @@ params:
               vt     value type (see VALUE_TYPES), default "val" / "fobj"
               shield True: the combinator gets f_nocancel(input)
               pre    True: completed by the main thread before the combinator is called
+              run    True: the input is in the RUNNING state (running() is True, cancel() is refused)
   pos       input id per argument position (default 1..n; repeat an id for a duplicated input)
   early     True: completer threads are started before the combinator is called (they race with the
             registration of the callbacks)
@@ -108,6 +109,10 @@ def build(p):
             f = Future()
             raw[i] = f
             kind = spec.get("kind", 1)
+            if spec.get("run") and kind != 4:
+                # the input is already running (like an executor's future whose callable has started): cancel()
+                # will be refused, but the request must still reach it
+                f.set_running_or_notify_cancel()
             if kind in (1, 2):
                 vt = spec.get("vt") or ("val" if kind == 1 else "fobj")
                 v = VALUE_TYPES[vt](i)
